@@ -42,7 +42,7 @@ ASSUMPTIONS = ['group-by columns have a concrete type (Any-typed group-by column
                'a summary table whose source no longer has the group-by column (column removed) is judged on its '
                'remaining group-by columns as recorded in the metadata']
 BUDGET = {'quick': dict(examples=1400, shards=16, max_seconds=40),
-          'thorough': dict(examples=16000, shards=16, max_seconds=1800)}
+          'thorough': dict(examples=5000, shards=16, max_seconds=1800)}
 SHRINK_BUDGET = {'quick': 100, 'thorough': 400}
 
 SRC, PEOPLE = 'Src', 'People'
